@@ -96,6 +96,9 @@ def run(ctx):
         # and DELETEs over as many): the shared lock is held from the first stamp to the last log record all the same
         runs += [dict(seed=ctx.seed * 1000 + 560 + i, n=(70 if ctx.quick() else 200), caps=[], cache=0, pcrash=0, pflush=0.2, wal=False, maxrows=150, bias="")
                  for i in range(1 if ctx.quick() else 3)]
+        # ... and INSERTs of up to 1 300 rows (a statement that gives the lock up "every so many hundred rows" is only seen then)
+        runs += [dict(seed=ctx.seed * 1000 + 570 + i, n=(24 if ctx.quick() else 60), caps=[], cache=0, pcrash=0, pflush=0.2, wal=False, maxrows=1300, bias="grow")
+                 for i in range(1 if ctx.quick() else 2)]
         agg = storelib.random_runs(ctx, pool, cov, runs)
         cov["order_events_accepted_by_walorder"] = agg.get("order_events_accepted_by_walorder", 0)
     finally:
